@@ -642,7 +642,8 @@ def make_test_class(t, modname, layers):
         method = unittest.skip('decorated')(method)
     elif s in ('xfail', 'uxs'):
         method = unittest.expectedFailure(method)
-    ns = {'__module__': modname, '_vt': t, mname: method}
+    # t['tm']: the test class lives in another module than the layers
+    ns = {'__module__': t.get('tm') or modname, '_vt': t, mname: method}
     cname = t.get('cls') or ('T_' + name)
     li = t.get('li')
     if t.get('l') is not None and li is None:
